@@ -827,6 +827,10 @@ func (ex *Exec) forStmt(x *ast.ForStmt, label string) {
 	if x.Init != nil {
 		ex.stmt(x.Init)
 	}
+	if rs := ex.asRangeLoop(x); rs != nil {
+		ex.rangeStmt(rs, label)
+		return
+	}
 	hdr := "for "
 	if x.Init != nil || x.Post != nil {
 		hdr += nodeString(ex.P.Fset, x.Init) + "; " + nodeString(ex.P.Fset, x.Cond) + "; " + nodeString(ex.P.Fset, x.Post)
@@ -1096,4 +1100,75 @@ func recovers(body *ast.BlockStmt) bool {
 		}
 	}
 	return false
+}
+
+// asRangeLoop: `for k := 0; k < len(E); k++ { body }` read as `for k := range E { body }` when the contract's loop at this
+// position was written for a range loop (the loop was rewritten from the one form into the other). The two are the same loop
+// when the body assigns neither k nor E; the binding is a guessed one: a failed proof over it is undecided, never a violation.
+func (ex *Exec) asRangeLoop(x *ast.ForStmt) *ast.RangeStmt {
+	c := ex.F.Contract
+	if c == nil || len(ex.inlineStack) > 0 {
+		return nil
+	}
+	lc := c.Loops[ex.loopOrd+1]
+	if lc == nil || lc.seen || !reRangeHeader.MatchString(strings.TrimSpace(lc.Header)) {
+		return nil
+	}
+	init, ok := x.Init.(*ast.AssignStmt)
+	if !ok || init.Tok != token.DEFINE || len(init.Lhs) != 1 || len(init.Rhs) != 1 || exprString(init.Rhs[0]) != "0" {
+		return nil
+	}
+	k, ok := init.Lhs[0].(*ast.Ident)
+	if !ok {
+		return nil
+	}
+	cond, ok := x.Cond.(*ast.BinaryExpr)
+	if !ok || cond.Op != token.LSS || exprString(cond.X) != k.Name {
+		return nil
+	}
+	call, ok := unparen(cond.Y).(*ast.CallExpr)
+	if !ok || len(call.Args) != 1 || exprString(call.Fun) != "len" {
+		return nil
+	}
+	coll := call.Args[0]
+	if t := ex.info.TypeOf(coll); t == nil {
+		return nil
+	} else if _, isSlice := t.Underlying().(*types.Slice); !isSlice {
+		return nil
+	}
+	post, ok := x.Post.(*ast.IncDecStmt)
+	if !ok || post.Tok != token.INC || exprString(post.X) != k.Name {
+		return nil
+	}
+	collText := exprString(coll)
+	safe := true
+	ast.Inspect(x.Body, func(n ast.Node) bool {
+		switch y := n.(type) {
+		case *ast.AssignStmt:
+			for _, l := range y.Lhs {
+				if t := exprString(l); t == k.Name || t == collText || strings.HasPrefix(collText, t+".") {
+					safe = false
+				}
+			}
+		case *ast.IncDecStmt:
+			if exprString(y.X) == k.Name {
+				safe = false
+			}
+		case *ast.UnaryExpr:
+			if y.Op == token.AND && (exprString(y.X) == k.Name || exprString(y.X) == collText) {
+				safe = false
+			}
+		case *ast.BranchStmt:
+			// break / continue keep their meaning; goto does not occur
+		}
+		return true
+	})
+	if !safe {
+		return nil
+	}
+	if ex.P.ApproxBind == nil {
+		ex.P.ApproxBind = map[string][]string{}
+	}
+	ex.P.ApproxBind[ex.F.Name] = append(ex.P.ApproxBind[ex.F.Name], fmt.Sprintf("%s: the index loop `for %s := 0; %s < len(%s); %s++` is read as a range loop to bind the invariant written for %q", ex.F.Name, k.Name, k.Name, collText, k.Name, lc.Header))
+	return &ast.RangeStmt{For: x.For, Key: k, Tok: token.ASSIGN, X: coll, Body: x.Body}
 }
